@@ -8,6 +8,7 @@ CONSTANTS
   MaxInjects = 1
   MaxExpires = 1
   MaxLosses = 1
+  MaxLinkChanges = 0
   AsBuilt = FALSE
 
 INVARIANT EmitDone
